@@ -81,6 +81,20 @@ Proof.
   split; [use bos_mean_photon_invariant|]. intro Hd. use bos_fid_prefsq_invariant.
 Qed.
 
+(* n applications of ONE operation object: the object keeps its value and the backend receives, every time, the
+   number it receives in the other convention *)
+Lemma main_reapply n x g sel :
+  op_apply_n (xgate_r F c') (lam * x) n = (lam * x, repeat (xgate_r F c x) n)
+  /\ op_apply_n (vgate_gamma F c') (fdiv F g lam) n = (fdiv F g lam, repeat (vgate_gamma F c g) n)
+  /\ op_apply_n (homodyne_select F c') (lam * sel) n = (lam * sel, repeat (homodyne_select F c sel) n).
+Proof.
+  rewrite !op_apply_n_repeat.
+  replace (xgate_r F c' (lam * x)) with (xgate_r F c x) by (symmetry; use xgate_r_scaled).
+  replace (vgate_gamma F c' (fdiv F g lam)) with (vgate_gamma F c g) by (symmetry; use vgate_gamma_scaled).
+  replace (homodyne_select F c' (lam * sel)) with (homodyne_select F c sel) by (symmetry; use homodyne_select_scaled).
+  repeat split.
+Qed.
+
 Lemma main_parity N numsq detcov :
   detcov <> f0 F ->
   parity_sq F c' N numsq (kpow F (lam * lam) (2 * N) * detcov) = parity_sq F c N numsq detcov.
